@@ -148,9 +148,11 @@ var plans = map[string]*Plan{
 		Rule: "random walks of 20-40 steps over closed / open-without-mode / RW / WO with I/O, chain surgery and counter updates attempted in every state: closed => all I/O and management calls fail and the directory hash is unchanged; open without mode => a write is reported failed and not counted; WO => writes apply, removals/replace/counter updates refused without side effects; RW => everything applies (model-checked); " +
 			"non-trivial = walk visits >=3 different states incl. a reopen; distinct = hash of the op-kind sequence",
 		Assumptions: append([]string{"the bytes of a write refused in the open-without-mode state do reach the head file (mode check after the data write); the verdict is on the reported outcome and the counter, as DESIGN.md C17 explains"}, rengAssume...),
-		Floor:       map[string]int64{"gate_probes_closed": 50, "gate_probes_WO": 50, "gate_probes_INIT": 20},
+		Floor:       map[string]int64{"gate_probes_closed": 50, "gate_probes_WO": 50, "gate_probes_INIT": 20, "action_matrix_cells": 102, "attach_attempts": 4},
 		Jobs: func(tier string) []Job {
-			return jobs("reng", 16, tierN(tier, 8, 150), "", time.Duration(tierN(tier, 10, 80))*time.Minute)
+			js := jobs("reng", 12, tierN(tier, 10, 200), "", time.Duration(tierN(tier, 10, 80))*time.Minute)
+			// REST action table (6 states x 17 actions) and the attach rule with the real remote.Factory
+			return append(js, jobs("restfuzz", 4, tierN(tier, 1, 5), "", time.Duration(tierN(tier, 10, 60))*time.Minute)...)
 		},
 		CrashSig: rengCrash("C17"),
 	},
@@ -188,6 +190,35 @@ var plans = map[string]*Plan{
 			return jobs("crashpt", 16, tierN(tier, 1, 2), "tier="+tier, time.Duration(tierN(tier, 15, 120))*time.Minute)
 		},
 	},
+	"C14": {
+		Level: "exploration",
+		Rule: "every route of both routers (enumerated from the mux router at run time) x methods {GET,POST,PUT,DELETE,PATCH,HEAD} x bodies {valid for the route, empty, non-JSON, truncated at every third byte, wrong JSON type per field, array/null, 1 MiB} x ids {valid, wrong, unknown, not base64, padding stripped, traversal, NUL, long, numeric, unicode} x hostile field values, in controller states {empty, registered, one RW, all RW with checkpoint, RW+WO, read-only; RF 1..5} and replica states {initial, closed, open, dirty, rebuilding, unreadable metadata}; each (state, request) pair runs on a freshly established state, plus drifting random sequences of 50 requests; quick = a seeded sample of the matrix, thorough = the whole matrix split over 16 worker processes; " +
+			"every request is journalled before execution; panic around ServeHTTP, process death, a request or the following liveness request not returning within 20 s, or the mutex not free within 2000 polls are violations; distinct = (method, route, request class, state, status class)",
+		Assumptions: []string{
+			"handlers that contact other processes see loopback addresses that refuse connections at once, or the HTTP stubs of the scripted replicas",
+			"/debug/pprof/ and /metrics are net/http/pprof and promhttp code: only their index pages are requested (the profile endpoint blocks for its sampling time by design)",
+		},
+		Floor: map[string]int64{"requests": 2000, "route_state_combinations": 100},
+		Jobs: func(tier string) []Job {
+			return jobs("restfuzz", 16, tierN(tier, 60, 0), "workers=16,tier="+tier, time.Duration(tierN(tier, 15, 120))*time.Minute)
+		},
+		CrashSig: func(last, log string) (string, string) {
+			c := jivaCrash(log)
+			if c == "" {
+				return "", ""
+			}
+			return "process-died:" + journalOp(last) + ":" + crashClass(c), "the process serving the management API died (" + c + "); last journalled request: " + last
+		},
+	},
+}
+
+func crashClass(c string) string {
+	for _, k := range []string{"Unlock of unlocked", "concurrent map", "all goroutines are asleep", "index out of range", "nil pointer", "level=fatal"} {
+		if strings.Contains(c, k) {
+			return strings.ReplaceAll(k, " ", "-")
+		}
+	}
+	return "other"
 }
 
 func ctlPlan(id string, q, t int, floor map[string]int64, rule string) *Plan {
